@@ -433,6 +433,74 @@ class LoopNest:
             return self.place(e["recv"])
         raise NotAffine(f"place expression {k} outside the loop-nest model")
 
+    def dim_of(self, it, pat):
+        """one iteration dimension: binds the closure / loop pattern, returns (symbol, length Poly | ("len", root, depth))"""
+        it = core.strip(it)
+        sname = self.fresh()
+        if it.get("k") == "Struct" and it.get("def") == "core::ops::range::Range":
+            flds = {f["f"]: f["e"] for f in it["fields"]}
+            if pat.get("k") != "Binding":
+                raise NotAffine("range pattern")
+            lo, hi = poly_eval(flds["start"], self.env, self.symfn), poly_eval(flds["end"], self.env, self.symfn)
+            if lo != Poly.const(0):
+                raise NotAffine("range not starting at 0 in a collected chain")
+            self.env[pat["lid"]] = Poly.sym(sname)
+            self.ranges[sname] = (lo, hi)
+            return sname, hi
+        enum = False
+        if it.get("k") == "MethodCall" and it["m"] == "enumerate":
+            enum, it = True, core.strip(it["recv"])
+        root, idx = self.place(it)
+        self.ranges[sname] = (Poly.const(0), ("len", root, len(idx)))
+        elem = (root, idx + [Poly.sym(sname)])
+        q = pat
+        if enum:
+            if not (q.get("k") == "Tuple" and len(q["pats"]) == 2 and all(x.get("k") == "Binding" for x in q["pats"])):
+                raise NotAffine("enumerate pattern")
+            self.env[q["pats"][0]["lid"]] = Poly.sym(sname)
+            self.elems[q["pats"][1]["lid"]] = elem
+        else:
+            while q.get("k") in ("Ref", "Deref") and isinstance(q.get("p"), dict):
+                q = q["p"]
+            if q.get("k") != "Binding":
+                raise NotAffine("element pattern")
+            self.elems[q["lid"]] = elem
+        return sname, ("len", root, len(idx))
+
+    def collected(self, lid, init):
+        """`let buf = <nested flat_map / map chain>.collect()`: element k of the result, k = the lexicographic rank of
+        the nested indices, is the place the innermost closure yields — recorded as the move buf[k] = that place"""
+        e = core.strip(init)
+        if not (e.get("k") == "MethodCall" and e["m"] == "collect"):
+            return
+
+        def seq(x):
+            x = core.strip(x)
+            while x.get("k") == "Block" and not x["b"]["stmts"] and "expr" in x["b"]:
+                x = core.strip(x["b"]["expr"])
+            if x.get("k") == "MethodCall" and x["m"] in ("map", "flat_map") and x["args"] and core.strip(x["args"][0]).get("k") == "Closure":
+                clo = core.strip(x["args"][0])
+                prm = clo["params"][0]
+                d = self.dim_of(x["recv"], prm.get("pat") or prm)
+                if x["m"] == "map":
+                    body = core.strip(clo["body"])
+                    while body.get("k") == "Block" and not body["b"]["stmts"] and "expr" in body["b"]:
+                        body = core.strip(body["b"]["expr"])
+                    return [d], self.place(body)
+                dims, el = seq(clo["body"])
+                return [d] + dims, el
+            if x.get("k") == "MethodCall" and x["m"] in ("copied", "cloned") and not x["args"]:
+                return seq(x["recv"])
+            raise NotAffine("collected chain outside the model")
+        try:
+            dims, el = seq(e["recv"])
+        except NotAffine:
+            return
+        self.dims_of = getattr(self, "dims_of", {})
+        self.dims_of[lid] = dims
+        self.pending_collect = getattr(self, "pending_collect", [])
+        self.pending_collect.append((lid, dims, el, e))
+
     def run(self, body):
         b = core.strip(body)
         if b.get("k") == "Block":
@@ -442,7 +510,9 @@ class LoopNest:
                         try:
                             self.env[st["pat"]["lid"]] = poly_eval(st["init"], self.env, self.symfn)
                         except NotAffine:
-                            pass      # not an index quantity (the buffer itself, ...)
+                            # not an index quantity: the buffer itself — possibly built as one iterator chain,
+                            # `(0..N).flat_map(|j| values.iter().map(move |v| v[j])).collect()`
+                            self.collected(st["pat"]["lid"], st["init"])
                 else:
                     self.run(st["e"])
             if "expr" in b["b"]:
@@ -482,6 +552,23 @@ class LoopNest:
             self.run(inner)
             return
         if b.get("k") == "Assign":
+            rhs = core.strip(b["r"])
+            if rhs.get("k") == "Call" and (core.callee(rhs) or "").endswith("array::from_fn") and rhs["args"] and core.strip(rhs["args"][0]).get("k") == "Closure":
+                # `*slot = std::array::from_fn(|j| EXPR)` is `for j in 0..N { slot[j] = EXPR }`
+                clo = core.strip(rhs["args"][0])
+                prm = clo["params"][0]
+                pat = prm.get("pat") or prm
+                if pat.get("k") != "Binding":
+                    raise NotAffine("from_fn closure pattern")
+                sname = self.fresh()
+                self.env[pat["lid"]] = Poly.sym(sname)
+                root, idx = self.place(b["l"])
+                self.ranges[sname] = (Poly.const(0), ("len", root, len(idx)))
+                body = core.strip(clo["body"])
+                while body.get("k") == "Block" and not body["b"]["stmts"] and "expr" in body["b"]:
+                    body = core.strip(body["b"]["expr"])
+                self.moves.append(((root, idx + [Poly.sym(sname)]), self.place(body), b))
+                return
             self.moves.append((self.place(b["l"]), self.place(b["r"]), b))
             return
         if b.get("k") in ("Match", "MethodCall", "Call", "Ret", "Path", "Lit", "Tup") or core.as_try(b) is not None:
